@@ -3,6 +3,7 @@ package colvet
 import (
 	"fmt"
 	"go/token"
+	"go/types"
 	"sort"
 	"strings"
 
@@ -711,6 +712,7 @@ func ruleExtremeFold(r *Report) {
 		}
 		n, ok := 0, true
 		var bad ssa.Instruction
+		foldWhy := ""
 		deepVisitC(fn, func(c ssa.Instruction, env *venv) {
 			cc, _, _ := callCommon(c)
 			if cc == nil {
@@ -749,13 +751,136 @@ func ruleExtremeFold(r *Report) {
 				if !guarded {
 					ok, bad = false, ins
 				}
+				// the fold itself: the result is replaced exactly when the block had a value and that
+				// value is better than the extreme so far or there is none so far — the truth table of
+				// the store's reachability over (hit, better, found-so-far)
+				if !fromCall(st.Val) || hit == nil {
+					return
+				}
+				var cmp *ssa.BinOp
+				allInstrs(c.Parent(), func(i2 ssa.Instruction) {
+					if bo, isB := i2.(*ssa.BinOp); isB && (fromCall(bo.X) || fromCall(bo.Y)) {
+						switch bo.Op {
+						case token.LSS, token.GTR, token.LEQ, token.GEQ:
+							cmp = bo
+						}
+					}
+				})
+				if cmp == nil {
+					return
+				}
+				// direction: Max replaces when best < v, Min when v < best
+				op, x, _, _, _ := canonBin(cmp)
+				if (op == token.LSS || op == token.LEQ) && fromCall(x) != (agg == "Min") {
+					ok, bad = false, cmp
+				}
+				isFound := func(v ssa.Value) bool {
+					ld, isLd := v.(*ssa.UnOp)
+					if !isLd || ld.Op != token.MUL {
+						return false
+					}
+					b, isB := ld.Type().Underlying().(*types.Basic)
+					return isB && b.Kind() == types.Bool
+				}
+				for m := 0; m < 8; m++ {
+					H, C, K := m&1 != 0, m&2 != 0, m&4 != 0
+					reach, _ := feasibleUnder(c.Parent(), func(v ssa.Value) (bool, bool) {
+						switch {
+						case v == hit || norm(v) == hit:
+							return H, true
+						case v == ssa.Value(cmp):
+							return C, true
+						case isFound(v):
+							return K, true
+						}
+						return false, false
+					})
+					if reach[st.Block()] != (H && (C || !K)) {
+						ok, bad = false, ins
+						foldWhy = fmt.Sprintf(" (with hit=%v, better=%v, found-so-far=%v the result is %sreplaced)", H, C, K, map[bool]string{true: "", false: "not "}[reach[st.Block()]])
+					}
+				}
 			})
 		})
 		pos := r.P.Pos(fn.Pos())
 		if bad != nil {
 			pos = r.P.InstrPos(bad)
 		}
+		_ = foldWhy
 		h.Check(ok && n > 0, name, pos, "results of bitmap."+agg+" used only where hit", "the aggregate stores a result of bitmap."+agg+" on a path where its hit flag may be false: a block without a selected value contributes (0, false), which replaces the extreme found so far whenever 0 compares better")
+	}
+}
+
+// ruleAccumulatorsFromZero (C04.fold/…/from-zero): Sum and Avg accumulate per block into variables
+// that the per-block closure adds to; those variables start at zero.
+func ruleAccumulatorsFromZero(r *Report) {
+	h := r.Rule("C04.fold", "P", "", 2)
+	for _, agg := range []string{"Sum", "Avg"} {
+		name := "(column.rdNumber[T])." + agg
+		fn := r.Anchor(name)
+		if fn == nil {
+			continue
+		}
+		n, bad := 0, ""
+		allInstrs(fn, func(ins ssa.Instruction) {
+			al, ok := ins.(*ssa.Alloc)
+			if !ok || !al.Heap {
+				return
+			}
+			// accumulated somewhere (a closure stores cell + something into it)?
+			acc := false
+			var inits []*ssa.Store
+			var visit func(v ssa.Value, depth int)
+			visit = func(v ssa.Value, depth int) {
+				if depth > 3 {
+					return
+				}
+				for _, ref := range *v.Referrers() {
+					switch x := ref.(type) {
+					case *ssa.Store:
+						if x.Addr != v {
+							continue
+						}
+						if bo, isB := x.Val.(*ssa.BinOp); isB && bo.Op == token.ADD {
+							acc = true
+						} else if x.Parent() == fn {
+							inits = append(inits, x)
+						}
+					case *ssa.MakeClosure:
+						for i, b := range x.Bindings {
+							if b == v {
+								visit(x.Fn.(*ssa.Function).FreeVars[i], depth+1)
+							}
+						}
+					}
+				}
+			}
+			visit(al, 0)
+			if !acc {
+				return
+			}
+			n++
+			for _, st := range inits {
+				val := st.Val
+				for {
+					if mc, isMC := val.(*ssa.MultiConvert); isMC {
+						val = mc.X
+						continue
+					}
+					if cv, isCv := val.(*ssa.Convert); isCv {
+						val = cv.X
+						continue
+					}
+					break
+				}
+				if k, isC := constInt(val); isC && k != 0 {
+					bad = r.P.InstrPos(st)
+				} else if c, isC := val.(*ssa.Const); isC && c.Value != nil && c.Value.String() != "0" {
+					bad = r.P.InstrPos(st)
+				}
+			}
+		})
+		h.Check(bad == "" && n > 0, name+"/from-zero", r.P.Pos(fn.Pos()), fmt.Sprintf("%d accumulators start at zero", n), "an accumulator of the aggregate starts from a value other than zero ("+bad+"): every result is off by it")
 	}
 }
 
@@ -868,4 +993,540 @@ func ruleRangeCountAgrees(r *Report) {
 			})
 		}
 	}
+}
+
+// equalEdge: b lies on the edge of a comparison accepted by isCmp on which its two operands are
+// equal (true edge of ==, false edge of !=); unequalEdge the other one.
+func onCmpEdge(b *ssa.BasicBlock, isCmp func(x, y ssa.Value) bool, equal bool) bool {
+	return edgeGuarded(b, func(c ssa.Value) (bool, bool) {
+		bo, ok := c.(*ssa.BinOp)
+		if !ok || (bo.Op != token.EQL && bo.Op != token.NEQ) || !isCmp(bo.X, bo.Y) {
+			return false, false
+		}
+		return true, (bo.Op == token.EQL) == equal
+	})
+}
+
+// ruleDeleteIndexBody (C03.register/(*columns).DeleteIndex/filter): detaching a computed column
+// rewrites the list of exactly the target column's entry to its main column plus every computed
+// column other than the one being dropped.
+func ruleDeleteIndexBody(r *Report) {
+	h := r.Rule("C03.register", "S", "", 0)
+	fn := r.Anchor("(*column.columns).DeleteIndex")
+	if fn == nil || len(fn.Params) < 3 {
+		return
+	}
+	key := "(*column.columns).DeleteIndex/filter"
+	why := ""
+	// the store of the new list into the entry
+	var store *ssa.Store
+	for _, g := range deepFuncs(fn) {
+		allInstrs(g, func(ins ssa.Instruction) {
+			if st, ok := ins.(*ssa.Store); ok {
+				if fr, ok := fieldOf(st.Addr); ok && fr.Struct == "column.columnEntry" && fr.Field == "cols" {
+					store = st
+				}
+			}
+		})
+	}
+	// a value of a helper seen from the function that calls it
+	resolve := func(v ssa.Value) ssa.Value {
+		for i := 0; i < 4; i++ {
+			n := norm(v)
+			p, ok := n.(*ssa.Parameter)
+			if !ok {
+				return n
+			}
+			a := paramArg(p)
+			if a == nil {
+				return n
+			}
+			v = a
+		}
+		return norm(v)
+	}
+	if store == nil {
+		h.Bad(key, r.P.Pos(fn.Pos()), "the filtered list is not stored back into the target column's entry: the computed column stays attached")
+		return
+	}
+	isName := func(x, y ssa.Value) bool {
+		nm := func(v ssa.Value) bool {
+			fr, ok := loadedField(v)
+			if ok && fr.Struct == "column.columnEntry" && fr.Field == "name" {
+				return true
+			}
+			if f, ok := strip(v).(*ssa.Field); ok {
+				if fr, ok := fieldOf(f); ok && fr.Field == "name" {
+					return true
+				}
+			}
+			return false
+		}
+		return (nm(x) && sameExpr(resolve(y), fn.Params[1])) || (nm(y) && sameExpr(resolve(x), fn.Params[1]))
+	}
+	if !onCmpEdge(store.Block(), isName, true) {
+		why = "the list is rewritten for entries other than the target column's (the name test is missing or inverted)"
+	}
+	// entries that do not match are skipped, not the end of the search
+	for _, b := range store.Parent().Blocks {
+		iff, ok := b.Instrs[len(b.Instrs)-1].(*ssa.If)
+		if !ok {
+			continue
+		}
+		bo, ok := iff.Cond.(*ssa.BinOp)
+		if !ok || (bo.Op != token.EQL && bo.Op != token.NEQ) || !isName(bo.X, bo.Y) {
+			continue
+		}
+		ne := b.Succs[0]
+		if bo.Op == token.EQL {
+			ne = b.Succs[1]
+		}
+		if ne != b && !reachAvoiding(ne, b, nil, nil) {
+			why = "the search for the target column's entry ends at the first entry with another name"
+		}
+	}
+	// what is appended: element 0 unconditionally, the elements of [1:] unless equal to the dropped one
+	main, rest := false, false
+	var all []ssa.Instruction
+	for _, g := range deepFuncs(fn) {
+		allInstrs(g, func(ins ssa.Instruction) { all = append(all, ins) })
+	}
+	each := func(f func(ssa.Instruction)) {
+		for _, ins := range all {
+			f(ins)
+		}
+	}
+	each(func(ins ssa.Instruction) {
+		c, ok := ins.(*ssa.Call)
+		if !ok {
+			return
+		}
+		if b, isB := c.Call.Value.(*ssa.Builtin); !isB || b.Name() != "append" || len(c.Call.Args) < 2 {
+			return
+		}
+		if !dependsOn(store.Val, func(z ssa.Value) bool { return z == ssa.Value(c) }, 8) {
+			return
+		}
+		// the appended element(s): a one-element slice literal
+		var elem ssa.Value
+		dependsOn(c.Call.Args[1], func(z ssa.Value) bool {
+			if st, ok := z.(*ssa.Alloc); ok {
+				for _, ref := range *st.Referrers() {
+					if ia, ok := ref.(*ssa.IndexAddr); ok {
+						for _, r2 := range *ia.Referrers() {
+							if s2, ok := r2.(*ssa.Store); ok && s2.Addr == ssa.Value(ia) {
+								elem = s2.Val
+							}
+						}
+					}
+				}
+			}
+			return false
+		}, 4)
+		if elem == nil {
+			return
+		}
+		ld, ok := strip(elem).(*ssa.UnOp)
+		if !ok {
+			return
+		}
+		ia, ok := ld.X.(*ssa.IndexAddr)
+		if !ok {
+			return
+		}
+		if k, isC := constInt(ia.Index); isC && k == 0 {
+			main = true
+			return
+		}
+		// an element of a reslice from 1
+		if sl, ok := strip(ia.X).(*ssa.Slice); ok {
+			if lo, isC := constInt(sl.Low); !isC || lo != 1 {
+				why = "the list of computed columns is taken from an index other than 1: the main column is treated as a computed one (applied twice), or a computed column is lost"
+			}
+		}
+		isDropped := func(x, y ssa.Value) bool {
+			dr := func(v ssa.Value) bool {
+				cl, ok := extractOf(resolve(v), 0)
+				return ok && calleeIs(&cl.Call, "(*column.columns).Load") && sameExpr(cl.Call.Args[1], fn.Params[2])
+			}
+			return (dr(x) && sameExpr(y, elem)) || (dr(y) && sameExpr(x, elem))
+		}
+		if onCmpEdge(c.Block(), isDropped, false) {
+			rest = true
+		} else {
+			why = "a computed column is kept on another condition than being different from the one that is dropped"
+		}
+	})
+	if why == "" && !(main && rest) {
+		why = "the new list is not the main column followed by the computed columns other than the dropped one"
+	}
+	h.Check(why == "", key, r.P.InstrPos(store), "entry[column].cols = [main] + [x in cols[1:] if x != dropped]", "detaching a computed column does not rewrite the target column's list as it should ("+why+"): the dropped index or trigger keeps receiving the column's updates, or another computed column stops receiving them")
+}
+
+// ruleTypedFilterScan (C04.ops/…/scan): a typed value filter hands every block of the selection to the
+// column's filter of the matching type, with the block, the block's selection and the caller's predicate.
+func ruleTypedFilterScan(r *Report) {
+	h := r.Rule("C04.ops", "def-use", "", 10)
+	want := map[string]string{
+		"(*column.Txn).WithFloat":  "FilterFloat64",
+		"(*column.Txn).WithInt":    "FilterInt64",
+		"(*column.Txn).WithUint":   "FilterUint64",
+		"(*column.Txn).WithString": "FilterString",
+	}
+	for _, name := range sortedKeys(want) {
+		fn := r.Anchor(name)
+		if fn == nil || len(fn.Params) < 3 {
+			continue
+		}
+		ok := false
+		for _, c := range callsToDeep(fn, false, "(*column.Txn).rangeRead") {
+			cc, _, _ := callCommon(c.Inner)
+			cb := asFunc(norm(cc.Args[1]))
+			if cb == nil || cbParam(cb, 0) == nil || cbParam(cb, 1) == nil {
+				continue
+			}
+			deepVisitE(cb, func(ins, _ ssa.Instruction, env *venv) {
+				c2, _, _ := callCommon(ins)
+				if c2 == nil || len(c2.Args) < 3 {
+					return
+				}
+				nm := ""
+				if c2.IsInvoke() {
+					nm = c2.Method.Name()
+				} else if sc := c2.StaticCallee(); sc != nil {
+					nm = baseName(sc)
+				}
+				if nm != want[name] {
+					return
+				}
+				args := c2.Args
+				if !c2.IsInvoke() {
+					args = args[1:] // static call: the receiver comes first
+				}
+				if len(args) < 3 {
+					return
+				}
+				if sameE(args[0], env, cbParam(cb, 0), nil, 0) && sameE(args[1], env, cbParam(cb, 1), nil, 0) && sameE(args[2], env, fn.Params[2], nil, 0) {
+					ok = true
+				}
+			})
+		}
+		h.Check(ok, name+"/scan", r.P.Pos(fn.Pos()), "column."+want[name]+"(block, selection-of-block, predicate) for every block", "the filter does not hand each block's selection and the caller's predicate to the column's "+want[name]+": the selection is left as it was (the filter selects rows the predicate rejects)")
+	}
+}
+
+// ruleInitializeFirst (C04.init): the selection of a transaction is created lazily (initialize()
+// copies the fill list into Txn.index on first use); every exported operation that reads or narrows
+// the selection calls initialize() before anything that touches Txn.index, else it works on the
+// empty (or stale, pooled) index.
+func ruleInitializeFirst(r *Report) {
+	h := r.Rule("C04.init", "P", "every exported operation that touches the transaction's selection calls initialize() before the first access to it (directly, or by going through another exported operation that does)", 10)
+	init := r.Anchor("(*column.Txn).initialize")
+	if init == nil {
+		return
+	}
+	touches := map[*ssa.Function]bool{}
+	touchesIndex := func(f *ssa.Function) bool {
+		if v, ok := touches[f]; ok {
+			return v
+		}
+		touches[f] = false
+		res := false
+		for _, g := range deepFuncs(f) {
+			if originOf(g) == init {
+				continue
+			}
+			allInstrs(g, func(ins ssa.Instruction) {
+				if fa, ok := ins.(*ssa.FieldAddr); ok {
+					if fr, ok := fieldOf(fa); ok && fr.Struct == "column.Txn" && fr.Field == "index" {
+						res = true
+					}
+				}
+			})
+		}
+		touches[f] = res
+		return res
+	}
+	var fns []*ssa.Function
+	for fn := range r.P.modFunc {
+		if fn.Parent() != nil || fn.Synthetic != "" || fn.Origin() != nil || !token.IsExported(fn.Name()) || fn == init {
+			continue
+		}
+		if !r.P.inColumnPkg(fn) || fn.Signature.Recv() == nil {
+			continue
+		}
+		if rn := structName(fn.Signature.Recv().Type()); rn == "column.Collection" {
+			continue // goes through Query: the transaction's operations are the subjects
+		}
+		fns = append(fns, fn)
+	}
+	sort.Slice(fns, func(i, j int) bool { return fnName(fns[i]) < fnName(fns[j]) })
+	subject := map[*ssa.Function]bool{}
+	for _, fn := range fns {
+		if touchesIndex(fn) {
+			subject[fn] = true
+		}
+	}
+	for _, fn := range fns {
+		if !subject[fn] {
+			continue
+		}
+		var inits, uses []ssa.Instruction
+		allInstrs(fn, func(ins ssa.Instruction) {
+			if fa, ok := ins.(*ssa.FieldAddr); ok {
+				if fr, ok := fieldOf(fa); ok && fr.Struct == "column.Txn" && fr.Field == "index" {
+					uses = append(uses, ins)
+				}
+				return
+			}
+			cc, _, _ := callCommon(ins)
+			if cc == nil {
+				// a closure that touches the selection counts where it is made
+				if mc, ok := ins.(*ssa.MakeClosure); ok && touchesIndex(mc.Fn.(*ssa.Function)) {
+					uses = append(uses, ins)
+				}
+				return
+			}
+			sc := cc.StaticCallee()
+			if sc == nil {
+				return
+			}
+			o := originOf(sc)
+			switch {
+			case o == init || initialisesAtEntry(o, init, 0):
+				inits = append(inits, ins)
+			case subject[o]:
+				// goes through an exported operation that initialises itself
+			case isHelper(sc) && touchesIndex(o):
+				uses = append(uses, ins)
+			}
+		})
+		ok := true
+		var bad ssa.Instruction
+		for _, u := range uses {
+			dom := false
+			for _, i := range inits {
+				if precedes(i, u) {
+					dom = true
+				}
+			}
+			// … or on the edge on which the transaction's `setup` flag is already set
+			if !dom && edgeGuarded(u.Block(), func(c ssa.Value) (bool, bool) {
+				if fr, ok := loadedField(c); ok && fr.Struct == "column.Txn" && fr.Field == "setup" {
+					return true, true
+				}
+				return false, false
+			}) {
+				dom = true
+			}
+			if !dom {
+				ok, bad = false, u
+			}
+		}
+		pos := r.P.Pos(fn.Pos())
+		if bad != nil {
+			pos = r.P.InstrPos(bad)
+		}
+		h.Check(ok, fnName(fn), pos, fmt.Sprintf("initialize() precedes %d uses of the selection", len(uses)), "the operation touches the transaction's selection before initialize() has created it: as the first operation of a transaction it works on an empty (or a pooled transaction's stale) selection")
+	}
+}
+
+// ruleHeaderRecord (C05.header/record): the fixed-size record that Buffer.WriteTo writes per section
+// header and readChunksFrom reads back: every field of `header` is encoded and decoded, at the same
+// byte range on both sides, and the ranges do not overlap.
+func ruleHeaderRecord(r *Report) {
+	h := r.Rule("C05.header", "S", "", 0)
+	wfn, rfn := r.Anchor("(*commit.Buffer).WriteTo"), r.Anchor("commit.readChunksFrom")
+	if wfn == nil || rfn == nil {
+		return
+	}
+	type rng struct{ lo, hi int64 }
+	sliceRange := func(v ssa.Value) (rng, bool) {
+		sl, ok := strip(v).(*ssa.Slice)
+		if !ok {
+			return rng{}, false
+		}
+		lo, hi := int64(0), int64(-1)
+		if sl.Low != nil {
+			k, isC := constInt(sl.Low)
+			if !isC {
+				return rng{}, false
+			}
+			lo = k
+		}
+		if sl.High != nil {
+			k, isC := constInt(sl.High)
+			if !isC {
+				return rng{}, false
+			}
+			hi = k
+		}
+		return rng{lo, hi}, true
+	}
+	headerField := func(v ssa.Value) string {
+		name := ""
+		dependsOn(v, func(z ssa.Value) bool {
+			if fr, ok := loadedField(z); ok && fr.Struct == "commit.header" {
+				name = fr.Field
+				return true
+			}
+			if f, ok := z.(*ssa.Field); ok {
+				if fr, ok := fieldOf(f); ok && fr.Struct == "commit.header" {
+					name = fr.Field
+					return true
+				}
+			}
+			return false
+		}, 5)
+		return name
+	}
+	enc, dec := map[string]rng{}, map[string]rng{}
+	for _, f := range deepFuncs(wfn) {
+		allInstrs(f, func(ins ssa.Instruction) {
+			cc, _, _ := callCommon(ins)
+			if cc == nil || !strings.HasSuffix(calleeShort(cc), ".PutUint32") || len(cc.Args) < 3 {
+				return
+			}
+			if rg, ok := sliceRange(cc.Args[1]); ok {
+				if fld := headerField(cc.Args[2]); fld != "" {
+					enc[fld] = rg
+				}
+			}
+		})
+	}
+	for _, f := range deepFuncs(rfn) {
+		allInstrs(f, func(ins ssa.Instruction) {
+			st, ok := ins.(*ssa.Store)
+			if !ok {
+				return
+			}
+			fr, ok := fieldOf(st.Addr)
+			if !ok || fr.Struct != "commit.header" {
+				return
+			}
+			dependsOn(st.Val, func(z ssa.Value) bool {
+				c, isC := z.(*ssa.Call)
+				if !isC || !strings.HasSuffix(calleeShort(&c.Call), ".Uint32") || len(c.Call.Args) < 2 {
+					return false
+				}
+				if rg, ok := sliceRange(c.Call.Args[1]); ok {
+					dec[fr.Field] = rg
+				}
+				return true
+			}, 4)
+		})
+	}
+	why := ""
+	var fields []string
+	if nt := r.P.NamedType("commit", "header"); nt != nil {
+		if st, ok := nt.Underlying().(*types.Struct); ok {
+			for i := 0; i < st.NumFields(); i++ {
+				fields = append(fields, st.Field(i).Name())
+			}
+		}
+	}
+	for _, f := range fields {
+		e, okE := enc[f]
+		d, okD := dec[f]
+		switch {
+		case !okE:
+			why = "field " + f + " is not encoded"
+		case !okD:
+			why = "field " + f + " is not decoded"
+		case e != d:
+			why = fmt.Sprintf("field %s is encoded at bytes [%d:%d] and decoded from [%d:%d]", f, e.lo, e.hi, d.lo, d.hi)
+		}
+		for _, g := range fields {
+			if g != f && okE && enc[g].lo < e.hi && e.lo < enc[g].hi {
+				if _, ok := enc[g]; ok {
+					why = "fields " + f + " and " + g + " are encoded at overlapping bytes"
+				}
+			}
+		}
+	}
+	h.Check(why == "" && len(fields) > 0, "header-record", r.P.Pos(wfn.Pos()), fmt.Sprintf("%d fields encoded and decoded at matching byte ranges", len(fields)), "the per-section header record is not encoded and decoded field by field at matching byte ranges ("+why+"): a buffer with more than one section reads back with the wrong start or base offset")
+}
+
+// ruleRecorderInstalled (C14.pair/…recorderOpen/install, C14.fd/(*commit.Log).Close): the recorder is
+// installed (the compare-and-swap on Collection.record) exactly when the temporary log was opened
+// without error; Log.Close closes the underlying file when it is a Closer.
+func ruleRecorderInstalled(r *Report) {
+	h := r.Rule("C14.pair", "P", "", 0)
+	if fn := r.Anchor("(*column.Collection).recorderOpen"); fn != nil {
+		var cas ssa.Instruction
+		allInstrs(fn, func(ins ssa.Instruction) {
+			if cc, _, _ := callCommon(ins); cc != nil && strings.HasPrefix(calleeShort(cc), "sync/atomic.CompareAndSwap") {
+				cas = ins
+			}
+		})
+		ok := cas != nil && onCmpEdge(cas.Block(), func(x, y ssa.Value) bool {
+			isErr := func(v ssa.Value) bool {
+				cl, ok := extractOf(norm(v), 1)
+				return ok && calleeIs(&cl.Call, "commit.OpenTemp")
+			}
+			return (isErr(x) && isConstNil(y)) || (isErr(y) && isConstNil(x))
+		}, true)
+		pos := r.P.Pos(fn.Pos())
+		if cas != nil {
+			pos = r.P.InstrPos(cas)
+		}
+		h.Check(ok, "(*column.Collection).recorderOpen/install", pos, "the recorder is installed on the edge on which OpenTemp returned no error", "the snapshot's recorder is not installed when the temporary log was opened successfully (or is installed when it was not): the commits applied while the snapshot runs are recorded nowhere and the snapshot reports success")
+	}
+	if fn := r.Anchor("(*commit.Log).Close"); fn != nil {
+		ok := false
+		allInstrs(fn, func(ins ssa.Instruction) {
+			cc, _, _ := callCommon(ins)
+			if cc == nil || !cc.IsInvoke() || cc.Method.Name() != "Close" {
+				return
+			}
+			ok = edgeGuarded(ins.Block(), func(c ssa.Value) (bool, bool) {
+				if ex, isEx := c.(*ssa.Extract); isEx && ex.Index == 1 {
+					if _, isTA := ex.Tuple.(*ssa.TypeAssert); isTA {
+						return true, true
+					}
+				}
+				return false, false
+			})
+		})
+		h.Check(ok, "(*commit.Log).Close", r.P.Pos(fn.Pos()), "closes the source when it is a Closer", "Log.Close does not close the underlying file: every snapshot leaves a descriptor open")
+	}
+}
+
+// initialisesAtEntry: the helper calls init (or a helper that does) on every path, before anything
+// else of its own that could matter: the call sits in a block that dominates every return and no
+// access to Txn.index precedes it.
+func initialisesAtEntry(f, init *ssa.Function, depth int) bool {
+	if f == nil || len(f.Blocks) == 0 || depth > 2 || !isHelper(f) {
+		return false
+	}
+	var site ssa.Instruction
+	allInstrs(f, func(ins ssa.Instruction) {
+		if site != nil {
+			return
+		}
+		if cc, _, _ := callCommon(ins); cc != nil {
+			if sc := cc.StaticCallee(); sc != nil {
+				if o := originOf(sc); o == init || initialisesAtEntry(o, init, depth+1) {
+					site = ins
+				}
+			}
+		}
+	})
+	if site == nil {
+		return false
+	}
+	for _, ret := range returnsOf(f) {
+		if !precedes(site, ret) {
+			return false
+		}
+	}
+	ok := true
+	allInstrs(f, func(ins ssa.Instruction) {
+		if fa, isFA := ins.(*ssa.FieldAddr); isFA {
+			if fr, isF := fieldOf(fa); isF && fr.Struct == "column.Txn" && fr.Field == "index" && !precedes(site, ins) {
+				ok = false
+			}
+		}
+	})
+	return ok
 }
